@@ -1136,8 +1136,12 @@ package serf
 //@ end
 //@ func (s *serfQueries) keyListResponseWithCorrectSize(q *Query, resp *nodeKeyResponse) (raw []byte, qresp messageQueryResponse, err error)
 //@   requires wf: wfInternalQuery(s, q) && resp != nil && allocated(resp) && len(resp.Keys) >= 0 && (nilSlice(resp.Keys) ==> len(resp.Keys) == 0)
+//@   # a node's key-listing reply never exceeds the response size limit
+//@   ensures reply_fits [C23,C33]: err == nil ==> len(raw) <= q.serf.config.QueryResponseSizeLimit
+//@   ensures keys_only_truncated [C23]: len(resp.Keys) <= old(len(resp.Keys))
 //@   loop 1 vars i int
 //@   loop 1 invariant bounds: i <= len(resp.Keys) && (nilSlice(resp.Keys) ==> len(resp.Keys) == 0)
+//@   loop 1 invariant shrinking [C23]: len(resp.Keys) <= old(len(resp.Keys))
 //@ end
 //@ func decodeKeyRequest(q *Query, req *keyRequest) (err error)
 //@   requires wf: q != nil && req != nil
@@ -1283,6 +1287,64 @@ package serf
 //@   loop 1 invariant bounds [C36]: 0 <= matching && matching <= responses && recvN(respCh) >= 0 && callNOf("shutdown") == sd0 && callNOf("query") == q0+1
 //@   loop 1 invariant same_stream [C36]: same(respCh, callResOf[*QueryResponse]("query", q0).respCh) && local != nil &&
 //@       local == callResOf[*memberlist.Node]("localnode", ln0) && callRetOf("query", q0)
+//@ end
+
+// ---------------------------------------------------------------- cluster key operations: aggregating the replies (C23)
+
+// a reply to a key query is well formed when it carries the key-response type byte and a decodable response
+//@ pure func okKeyReply(x NodeResponse) bool {
+//@   return len(x.Payload) >= 1 && messageType(x.Payload[0]) == messageKeyResponseType && decodeOK[nodeKeyResponse](x.Payload[1:])
+//@ }
+// ... and counts as a failure when it is not, or when the node reports that the operation failed
+//@ pure func failedKeyReply(x NodeResponse) bool { return !okKeyReply(x) || !decoded[nodeKeyResponse](x.Payload[1:]).Result }
+//@ pure func primaryIs(x NodeResponse, pk string) bool { return okKeyReply(x) && decoded[nodeKeyResponse](x.Payload[1:]).PrimaryKey == pk }
+
+//@ pure func wfKeyResponse(r *KeyResponse) bool {
+//@   return r != nil && allocated(r) && r.Messages != nil && r.Keys != nil && r.PrimaryKeys != nil && !same(r.Keys, r.PrimaryKeys)
+//@ }
+
+//@ func (k *KeyManager) streamKeyResp(resp *KeyResponse, ch <-chan NodeResponse)
+//@   requires wf: k != nil && k.serf != nil && wfKeyResponse(resp)
+//@   oldlet r0 := recvN(ch)
+//@   oldlet resp0 := resp.NumResp
+//@   oldlet err0 := resp.NumErr
+//@   let r1 := recvN(ch)
+//@   ensures wf [C23]: wfKeyResponse(resp) && r0 <= r1 && resp.NumNodes == old(resp.NumNodes)
+//@   # the number of replies is the number of replies received, whatever they contain
+//@   ensures replies_counted [C23]: resp.NumResp == resp0 + (r1 - r0)
+//@   # failures are exactly the malformed, undecodable and failed replies
+//@   ensures failures_counted [C23]: resp.NumErr == err0 + countRecv(ch, r0, r1, func(x NodeResponse) bool { return failedKeyReply(x) })
+//@   # for every primary key: how many well-formed replies name it
+//@   ensures primary_keys_tallied [C23]: forall(func(pk string) bool {
+//@       return resp.PrimaryKeys[pk] == old(resp.PrimaryKeys[pk]) + countRecv(ch, r0, r1, func(x NodeResponse) bool { return primaryIs(x, pk) }) })
+//@   loop 1 invariant progress [C23]: wfKeyResponse(resp) && r0 <= recvN(ch) && resp.NumNodes == old(resp.NumNodes) && resp.NumResp == resp0 + (recvN(ch) - r0)
+//@   loop 1 invariant failures [C23]: resp.NumErr == err0 + countRecv(ch, r0, recvN(ch), func(x NodeResponse) bool { return failedKeyReply(x) })
+//@   loop 1 invariant primaries [C23]: forall(func(pk string) bool {
+//@       return resp.PrimaryKeys[pk] == old(resp.PrimaryKeys[pk]) + countRecv(ch, r0, recvN(ch), func(x NodeResponse) bool { return primaryIs(x, pk) }) })
+//@   loop 2 vars ri=rangeindex int
+//@   loop 2 invariant progress [C23]: -1 <= ri && wfKeyResponse(resp) && r0 < recvN(ch) && resp.NumNodes == old(resp.NumNodes) && resp.NumResp == resp0 + (recvN(ch) - r0)
+//@   loop 2 invariant failures [C23]: resp.NumErr == err0 + countRecv(ch, r0, recvN(ch), func(x NodeResponse) bool { return failedKeyReply(x) })
+//@   loop 2 invariant primaries [C23]: forall(func(pk string) bool {
+//@       return resp.PrimaryKeys[pk] == old(resp.PrimaryKeys[pk]) + countRecv(ch, r0, recvN(ch)-1, func(x NodeResponse) bool { return primaryIs(x, pk) }) })
+//@ end
+
+//@ func (k *KeyManager) handleKeyRequest(key, query string, opts *KeyRequestOptions) (resp *KeyResponse, err error)
+//@   requires wf: k != nil && k.serf != nil && wfQueries(k.serf) && wfMembers(k.serf) && hasMember(k.serf, k.serf.config.NodeName) && wfRunningQueries(k.serf) &&
+//@       k.serf.memberlist != nil && k.serf.config.MemberlistConfig != nil
+//@   requires eventch_open: k.serf.config.EventCh == nil || !closed(k.serf.config.EventCh)
+//@   requires error_values: FeatureNotSupported != nil
+//@   oldlet q0 := callNOf("query")
+//@   let asked := callNOf("query") == q0+1 && callRetOf("query", q0)
+//@   let ch := callResOf[*QueryResponse]("query", q0).respCh
+//@   ensures result [C23]: resp != nil && callNOf("query") <= q0+1
+//@   # what is reported is what was received on the stream of the query this call issued
+//@   ensures replies_reported [C23]: asked ==> resp.NumResp == recvN(ch)
+//@   ensures failures_reported [C23]: asked ==> resp.NumErr == countRecv(ch, 0, recvN(ch), func(x NodeResponse) bool { return failedKeyReply(x) })
+//@   ensures primary_keys_reported [C23]: asked ==> forall(func(pk string) bool {
+//@       return resp.PrimaryKeys[pk] == countRecv(ch, 0, recvN(ch), func(x NodeResponse) bool { return primaryIs(x, pk) }) })
+//@   # an error exactly when some node failed or fewer nodes replied than are members
+//@   ensures error_iff_incomplete [C23]: asked ==> (err != nil) == (resp.NumErr != 0 || resp.NumResp != resp.NumNodes)
+//@   ensures not_asked_is_error [C23]: !asked ==> err != nil
 //@ end
 
 // END-OF-CONTRACTS
